@@ -9,6 +9,8 @@ state / accepted event, i.e. every finite event sequence the LTS accepts (any nu
 message sizes, faults, timer firings, Close).
 -/
 import KafkaVerif.Lemmas.WriterProgress
+import KafkaVerif.Lemmas.WriterQueued
+import KafkaVerif.Lemmas.WriterQuiesce
 import KafkaVerif.Gen.WriterConsts
 
 namespace KV.C08
@@ -263,6 +265,107 @@ theorem queue_put_at_tail (cfg : Cfg) (s s' : State) (q b : Nat) (acc : Bool) (h
   cases hs
   exact ⟨pw, P, hq, hP, hg.1, hg.2.2, by simp⟩
 
+/-! ### nothing is dropped on the way: every accepted message is in a batch, every unfinished batch is in a pipeline -/
+
+/-- **no_batch_dropped** — a batch that has not been completed is in the pipeline of its partition writer: still
+attached, detached and about to be queued, in the queue, or with the sender goroutine.  Nothing is lost between
+writeMessages and the sender; in particular a closed queue is never handed a batch. -/
+theorem no_batch_dropped (cfg : Cfg) (s : State) (hr : Reachable cfg s) (b : Nat) (B : Batch) (hB : s.batches b = some B)
+    (hd : B.done = none) : ∃ P, s.pws B.pw = some P ∧ b ∈ P.pipe :=
+  invLive cfg s hr b B hB hd
+
+/-- **accepted_messages_all_queued** — once a call is past batchMessages (it waits for its batches, or it has returned
+with anything but a rejection: nil, a WriteErrors, the Async nil, or ctx.Err()), every one of its messages sits in a
+batch, and that batch is either completed or in the pipeline of its partition writer. -/
+theorem accepted_messages_all_queued (cfg : Cfg) (s : State) (hr : Reachable cfg s) (c : Nat) (C : Call) (hC : s.calls c = some C)
+    (hph : C.phase = .batched ∨ (C.phase = .returned ∧ ∃ r, C.result = some r ∧ r.isReject = false))
+    (i : Nat) (hi : i < C.msgs.length) :
+    ∃ b B, C.place i = some b ∧ s.batches b = some B ∧ (∃ m ∈ B.msgs, m.msg = (c, i)) ∧
+      ((∃ code, B.done = some code) ∨ ∃ P, s.pws B.pw = some P ∧ b ∈ P.pipe) := by
+  obtain ⟨b, hb⟩ := placedAll_elim (invQueued cfg s hr c C hC hph) i hi
+  obtain ⟨B, hB, hm, -⟩ := (invPlace cfg s hr).placed c C hC i b hb
+  refine ⟨b, B, hb, hB, hm, ?_⟩
+  cases hd : B.done with
+  | some code => exact Or.inl ⟨code, rfl⟩
+  | none => exact Or.inr (invLive cfg s hr b B hB hd)
+
+/-- **accepted_message_completes** — the per-message form of `flushed_without_further_input`: for every message of
+such a call there is a continuation made only of internal events of one partition writer (timer, queue, sender,
+broker answers — no further WriteMessages, no Close) after which the batch holding the message is completed. -/
+theorem accepted_message_completes (cfg : Cfg) (hmax : 1 ≤ cfg.maxAttempts) (s : State) (hr : Reachable cfg s)
+    (hlock : s.wlock.isCall = false) (c : Nat) (C : Call) (hC : s.calls c = some C)
+    (hph : C.phase = .batched ∨ (C.phase = .returned ∧ ∃ r, C.result = some r ∧ r.isReject = false))
+    (i : Nat) (hi : i < C.msgs.length) :
+    ∃ b pw es s' B' code, C.place i = some b ∧ internalRun cfg pw s es = some s' ∧ run cfg s es = some s' ∧
+      s'.batches b = some B' ∧ B'.done = some code := by
+  obtain ⟨b, B, hb, hB, -, hdone | ⟨P, hP, hmem⟩⟩ := accepted_messages_all_queued cfg s hr c C hC hph i hi
+  · obtain ⟨code, hc⟩ := hdone
+    exact ⟨b, B.pw, [], s, B, code, hb, rfl, rfl, hB, hc⟩
+  · obtain ⟨es, s', P', hint, hrun, -, -, -, hall⟩ := flushed_without_further_input cfg hmax s hr hlock B.pw P hP
+    obtain ⟨B', code, hB', hc⟩ := hall b hmem
+    exact ⟨b, B.pw, es, s', B', code, hb, hint, hrun, hB', hc⟩
+
+/-- **cancelled_call_still_flushed** — WriteMessages returning ctx.Err() withdraws nothing: the return changes no
+batch, no partition writer and no log, every message of the cancelled call is in a batch, and each of these batches is
+completed by internal events alone — the messages of a cancelled call are sent exactly like those of any other. -/
+theorem cancelled_call_still_flushed (cfg : Cfg) (hmax : 1 ≤ cfg.maxAttempts) (s s' : State) (hr : Reachable cfg s) (c : Nat)
+    (hs : step cfg s (.ret c .ctx) = some s') (hlock : s.wlock.isCall = false) :
+    s'.batches = s.batches ∧ s'.pws = s.pws ∧ s'.log = s.log ∧
+    ∃ C, s'.calls c = some C ∧ C.result = some .ctx ∧ ∀ i, i < C.msgs.length →
+      ∃ b pw es s'' B' code, C.place i = some b ∧ internalRun cfg pw s' es = some s'' ∧ run cfg s' es = some s'' ∧
+        s''.batches b = some B' ∧ B'.done = some code := by
+  have hr' := reachable_step hr hs
+  simp only [step, stepRet] at hs
+  repeat' split at hs
+  all_goals (first | (cases hs; done) | skip)
+  rename_i _ C hC hg
+  cases hs
+  refine ⟨rfl, rfl, rfl, { C with phase := .returned, result := some .ctx, endSeq := some s.seq }, by simp, rfl, ?_⟩
+  intro i hi
+  exact accepted_message_completes cfg hmax _ hr' hlock c
+    { C with phase := .returned, result := some .ctx, endSeq := some s.seq } (by simp) (Or.inr ⟨rfl, .ctx, rfl, rfl⟩) i hi
+
+/-- **quiesces_without_further_input** — the whole-writer form of `flushed_without_further_input`: from every reachable
+state in which no call is inside batchMessages there is a continuation made only of internal events (timer expiries,
+queue hand-overs, sender steps, broker answers; no WriteMessages step, no Close step) after which **every** batch of
+every partition writer is completed — acknowledged, or failed permanently / after MaxAttempts attempts — and no call
+record has changed. -/
+theorem quiesces_without_further_input (cfg : Cfg) (hmax : 1 ≤ cfg.maxAttempts) (s : State) (hr : Reachable cfg s)
+    (hlock : s.wlock.isCall = false) :
+    ∃ es s', run cfg s es = some s' ∧ es.all Event.internal = true ∧ s'.calls = s.calls ∧
+      ∀ b B, s'.batches b = some B → ∃ code, B.done = some code := by
+  obtain ⟨es, s', h1, h2, h3, -, h5⟩ := drains cfg hmax s hr (fresh_none_outside_batchMessages cfg s hr hlock)
+  exact ⟨es, s', h1, h2, h3, h5⟩
+
+/-- **everything_completed_when_close_returns** — Close can return only when every batch the writer ever created is
+completed: all senders have exited, an exited sender's queue is empty and closed, a closed queue's writer has nothing
+attached or pending, and a batch that is not completed would have to be in one of these places (`no_batch_dropped`).
+So nothing accepted is left unsent behind a returned Close. -/
+theorem everything_completed_when_close_returns (cfg : Cfg) (hmax : 1 ≤ cfg.maxAttempts) (s s' : State) (hr : Reachable cfg s)
+    (hs : step cfg s .closeReturn = some s') :
+    ∀ b B, s.batches b = some B → ∃ code, B.done = some code := by
+  simp only [step] at hs
+  repeat' split at hs
+  all_goals (first | (cases hs; done) | skip)
+  rename_i hg
+  obtain ⟨-, -, -, hall⟩ := hg
+  intro b B hB
+  cases hd : B.done with
+  | some code => exact ⟨code, rfl⟩
+  | none =>
+    exfalso
+    obtain ⟨P, hP, hmem⟩ := invLive cfg s hr b B hB hd
+    have hlisted := (invSched cfg s hr).pwListed B.pw P hP
+    rw [List.all_eq_true] at hall
+    have hex := hall B.pw hlisted
+    rw [hP] at hex
+    have hexited : P.sender = .exited := by simpa using hex
+    obtain ⟨hq, hqc⟩ := ((invProg cfg hmax s hr).pw B.pw P hP).exitedEmpty hexited
+    obtain ⟨-, hcurr, hpend⟩ := (invClosedQ cfg s hr).closedQ B.pw P hP hqc
+    have : P.pipe = [] := by simp [PW.pipe, hexited, Sender.batch?, hq, hcurr, hpend]
+    rw [this] at hmem
+    cases hmem
+
 /-! ### the decision logic of the model is the one in the source (regenerated on every run by go/extract/writer) -/
 
 /-- every piece of decision logic the theorems below are stated over could be read from the source -/
@@ -320,5 +423,15 @@ example : (run exCfg State.init
 
 example : (run exCfg State.init
     [ .enter true, .begin_ 1 [{ size := 50, topic := "" }, { size := 101, topic := "" }], .reject 1 .toolarge 1 ]).isSome = true := by decide
+
+/-- a cancelled synchronous call: WriteMessages returns ctx.Err() while its only batch is still attached; timer, queue
+and sender then produce the message all the same (non-vacuity of `cancelled_call_still_flushed`) -/
+example : ((run { exCfg with async := false } State.init
+    [ .enter true, .begin_ 1 [{ size := 50, topic := "" }], .assign 1 0 ("t", 0), .batch 1, .newPW 1 1 ("t", 0),
+      .newBatch 1 1, .add 1 1 1 0 50, .batched 1, .ret 1 .ctx,
+      .timerFire 1 1 true, .detach 1 1 .timer 0, .qput 1 1 true, .qget 1 (some 1), .attempt 1 1 0,
+      .produce 1 ("t", 0) [(1, 0)] .acked, .attemptDone 1 1 0 0, .complete 1 1 0 ]).map
+        (fun s => ((s.log ("t", 0)).map (·.msg), (s.calls 1).map (·.result)))) =
+    some ([(1, 0)], some (some .ctx)) := by decide
 
 end KV.C08
